@@ -60,7 +60,7 @@ chk('C02', 'fault_enumeration',
     'with short reads whose chunk boundaries differ between attempts and gated part orders, across transfer manager (4 '
     'destination kinds), legacy download_file and the process-pool worker loop; destination bytes compared with the object.',
     'Fault positions/kinds are enumerated on small objects; schedules are sampled. Fake response bodies raise the urllib3/socket '
-    'exceptions botocore translates.', 'end-to-end content oracle under enumerated stream faults', '4 C02', 'world,director,windows,procpool,runner')
+    'exceptions botocore translates. A destination that stalls is represented by stalls of 2.5-6 s of real time only.', 'end-to-end content oracle under enumerated stream faults', '4 C02', 'world,director,windows,procpool,runner')
 chk('C03', 'fault_enumeration',
     'A dry run lists every boundary event of each transfer type/mode; one run per (event, before/mid/after effect, fault kind), '
     'retry-budget exhaustion per range, and (thorough) fault pairs; result() is compared with the log of faults actually raised.',
@@ -98,7 +98,7 @@ chk('C08', 'exploration',
     'position / each cancel position and entry point, cancel-before-start and cancels steered into the double-announce windows, the '
     'merged log is checked for on_queued/on_done exactly-once, ordering against requests, cleanups and on_progress, raising on_done '
     'isolation and HeadObject suppression.',
-    'Interleavings are steered (line windows, yields) not enumerated.', 'offline trace checker over merged callback / S3 log',
+    'Interleavings are steered (line windows, yields) not enumerated; a slow sibling request is represented by stalls of 10-14 s of real time only.', 'offline trace checker over merged callback / S3 log',
     '4 C08', 'world,director,watchdog,yieldinj,windows,runner')
 chk('C09', 'exploration',
     'Running-sum monitor inside the recording subscriber over uploads/downloads/copies with forced body rewinds at every partial '
